@@ -223,6 +223,9 @@ func resInstances(tier string) []Instance {
 					bound = 2
 				}
 				p := resParams{kind: kd.kind, nsw: kd.nsw, ending: e, rounds: 2, buf: buf}
+				if e == "cancel-while-answering" && bound == 2 {
+					p.rounds = 1 // the adversary thread makes a round expensive; residue shows after the first
+				}
 				out = append(out, Instance{Name: p.name(), Bound: bound, Root: resScenario(p)})
 			}
 		}
